@@ -77,6 +77,39 @@ fn verif_quantize(t: Timespec) -> Timespec {
 """
 
 
+# the same two functions for Windows targets (std/src/sys/time/windows.rs): Instant::now() is
+# QueryPerformanceCounter scaled to nanoseconds (Miri: its virtual clock), SystemTime::now() asks the host
+WIN_OLD_INSTANT = "        Self { t: Duration::from_nanos(instant_nsec) }\n"
+WIN_NEW_INSTANT = "        Self { t: Duration::from_nanos(verif_quantize_ns(instant_nsec)) }\n"
+WIN_OLD_SYSTIME = """    pub fn now() -> SystemTime {
+        unsafe {
+            let mut t: SystemTime = mem::zeroed();
+            c::GetSystemTimePreciseAsFileTime(&mut t.t);
+            t
+        }
+    }
+"""
+WIN_NEW_SYSTIME = """    pub fn now() -> SystemTime {
+        // volute-verif: wall-clock time = the simulator's virtual monotonic clock + a fixed epoch offset
+        let ns = Instant::now().t.as_nanos() as u64;
+        SystemTime::from_intervals(((11_644_473_600u64 + 1_790_000_000u64) * (INTERVALS_PER_SEC as u64) + ns / 100) as i64)
+    }
+"""
+WIN_APPEND = """
+// volute-verif: coarse simulated clock (see /verif/tools/build_sysroot.py).
+fn verif_quantize_ns(t: u64) -> u64 {
+    use crate::sync::atomic::{AtomicU64, Ordering};
+    static Q: AtomicU64 = AtomicU64::new(u64::MAX);
+    let mut q = Q.load(Ordering::Relaxed);
+    if q == u64::MAX {
+        q = crate::env::var("VERIF_CLOCK_QUANTUM_NS").ok().and_then(|s| s.parse::<u64>().ok()).unwrap_or(0);
+        Q.store(q, Ordering::Relaxed);
+    }
+    if q == 0 { t } else { t - t % q }
+}
+"""
+
+
 def sh(cmd, **kw):
     return subprocess.run(cmd, capture_output=True, text=True, **kw)
 
@@ -93,7 +126,7 @@ def toolchain_lib_src():
 
 def wanted_stamp():
     v = sh(["rustc", "+nightly", "-vV"]).stdout + sh(["cargo", "+nightly", "miri", "--version"]).stdout
-    return hashlib.sha256((v + NEW_INSTANT + NEW_SYSTIME + APPEND).encode()).hexdigest()
+    return hashlib.sha256((v + NEW_INSTANT + NEW_SYSTIME + APPEND + WIN_NEW_INSTANT + WIN_NEW_SYSTIME + WIN_APPEND).encode()).hexdigest()
 
 
 def main():
@@ -113,6 +146,12 @@ def main():
         raise RuntimeError("std/src/sys/time/unix.rs does not look as expected; not patching")
     s = s.replace(OLD_INSTANT, NEW_INSTANT).replace(OLD_SYSTIME, NEW_SYSTIME) + APPEND
     open(f, "w").write(s)
+    fw = os.path.join(SRC, "std", "src", "sys", "time", "windows.rs")
+    w = open(fw).read()
+    if w.count(WIN_OLD_INSTANT) == 1 and w.count(WIN_OLD_SYSTIME) == 1:
+        open(fw, "w").write(w.replace(WIN_OLD_INSTANT, WIN_NEW_INSTANT).replace(WIN_OLD_SYSTIME, WIN_NEW_SYSTIME) + WIN_APPEND)
+    elif TARGET and "windows" in TARGET:
+        raise RuntimeError("std/src/sys/time/windows.rs does not look as expected; not patching")
     env = dict(os.environ, MIRI_LIB_SRC=SRC, MIRI_SYSROOT=SYSROOT, CARGO_NET_OFFLINE="true")
     env.pop("RUSTFLAGS", None)
     p = sh(["cargo", "+nightly", "miri", "setup"] + (["--target", TARGET] if TARGET else []), env=env, cwd=WORK)
